@@ -838,6 +838,14 @@ class Normaliser:
                 if isinstance(n, ast.Name) and n.id == name:
                     par = parent_of.get(id(n))
                     gp = parent_of.get(id(par)) if par is not None else None
+                    if isinstance(par, ast.Call) and isinstance(par.func, ast.Name) and par.func.id == 'str' \
+                            and len(par.args) == 1 and par.args[0] is n and not par.keywords and '__str__' in method_names:
+                        # str(record) is record.__str__()
+                        par.func = ast.copy_location(ast.Attribute(value=n, attr='__str__', ctx=ast.Load()), par)
+                        par.args = []
+                        pending_methods = True
+                        changed = True
+                        continue
                     if isinstance(par, ast.Attribute) and par.value is n and par.attr in method_names \
                             and isinstance(gp, ast.Call) and gp.func is par:
                         # byte_range.content_range(): for the inliner, which needs to know the class of the local
